@@ -493,7 +493,7 @@ def streams(tier, rng):
             cmp_cases.append(f"{attr} {j} {i} {el}")
 
     # ---- sort ----
-    n_sort = 420 if quick else 12000
+    n_sort = 420 if quick else 2600
     sort_cases = list(corpus.get("sort", []))
     hist_sort = {"corpus": len(sort_cases), "skipped-out-of-domain": 0, "len<=20": 0, "len>20": 0}
     for names in ([], [""], ["a"], ["1", "1"], ["b", "a"], ["a", "a", "a"]):
@@ -516,7 +516,7 @@ def streams(tier, rng):
             sort_cases.append(f"{attr} {rev} {el}")
 
     # ---- wild: no domain restriction, the float oracle is the recorded one ----
-    n_w = 300 if quick else 8000
+    n_w = 300 if quick else 3000
     wcmp_cases = list(corpus.get("wcmp", []))
     wsort_cases = list(corpus.get("wsort", []))
     hist_w = {"corpus": len(wcmp_cases) + len(wsort_cases), "len<=20": 0, "len>20": 0}
@@ -526,7 +526,7 @@ def streams(tier, rng):
         i, j = rng.randrange(len(names)), rng.randrange(len(names))
         wcmp_cases.append(f"name {i} {j} {el}")
         wcmp_cases.append(f"name {j} {i} {el}")
-    while len(wsort_cases) < n_w // 2:
+    while len(wsort_cases) < (n_w // 2 if quick else 900):
         n = rng.randrange(21, 50) if rng.random() < 0.5 else rng.randrange(2, 21)
         names = gen_wild_list(rng, n)
         if rng.random() < 0.5:
@@ -641,7 +641,10 @@ MANIFEST = {
             "list's integer names, a total preorder and with the position tie-breaker a strict total order, so the modelled sort never "
             "takes std's order-violation panic, its result is the unique sorted permutation (independent of the algorithm), numbers sort "
             "by value before other names, --sortr is exactly the reverse; the sibling comparator of the tree is a total preorder under "
-            "three stated conditions (each shown necessary by a witness); sorting a forest only permutes siblings and arguments; the "
+            "three stated conditions (two shown necessary by witnesses), and for whole trees satisfying them at every depth sort_forest "
+            "returns (no fuel exhaustion, no order-violation panic) a tree with the same entries under the same parents that is sorted at "
+            "every level; any two sorted permutations agree up to ties; sort_sb accepts exactly the model's output; sorting a forest only "
+            "permutes siblings and arguments; the "
             "tokeniser's cuts keep every token valid UTF-8. The models are tied to the code by differential execution of four streams "
             "(natural order, single comparisons, whole sorts up to 64 names, trees built from hand-made entries through tree_dump) and "
             "the boolean specifications (declarative order, not the comparator's code) are evaluated on the implementation's outputs.",
